@@ -69,7 +69,7 @@ def behaviours_of(res):
 
 def nontrivial(b):
     """Non-trivial: a sequence of at least two transactions, or a single transaction whose class is not the plain valid one."""
-    if b.get("kind") in ("sig", "sigseq", "vsweep"):
+    if b.get("kind") in ("sig", "sigseq", "vsweep", "applybig"):
         return True
     txs = b.get("txs", [])
     if len(txs) >= 2:
@@ -118,7 +118,10 @@ def generate(ctx):
     gq = ctx.tlc_must("TxApply", g_cfg(2 if quick else 3, "sig", POOL1, mode="sigseq"), name="G1_sender_cache", timeout=600)
     # V sweep: 12 classes x network ids {1, 2, 99} x every V in 0 .. 2*net + 40
     gv = ctx.tlc_must("TxApply", g_cfg(0, "seq", POOL1, mode="vsweep"), name="G1_v_sweep", timeout=300)
-    b1, b3, bs = behaviours_of(g1), behaviours_of(g3), behaviours_of(gs) + behaviours_of(gq) + behaviours_of(gv)
+    # big-number stage: 8 price x 3 limit x 5 affordability x 4 value classes, both call patterns; magnitudes up to 2^255 are
+    # chosen by the driver, travel as decimal strings and are judged with exact arithmetic (BigWord override)
+    gb = ctx.tlc_must("TxApply", g_cfg(0, "seq", POOL1, mode="big", versions="5" if quick else "4, 5"), name="G1_big_numbers", timeout=300)
+    b1, b3, bs = behaviours_of(g1), behaviours_of(g3), behaviours_of(gs) + behaviours_of(gq) + behaviours_of(gv) + behaviours_of(gb)
     rnd = random.Random(ctx.seed)
     if quick:
         # the quick tier keeps every class combination with price 1 or 3 and a seeded half of the sequences
@@ -152,7 +155,7 @@ def judge(ctx, behs):
     trace = ctx.path("trace.ndjson")
     info = ctx.drive("txapply", trace, behaviours=bpath)
     ctx.cov["traces_validated_against_impl"] += len(behs)
-    ctx.cov["evaluations"] += sum(len(b.get("txs", [])) or len(b.get("muts", [])) or len(b.get("seq", [])) or len(b.get("vs", [])) for b in behs)
+    ctx.cov["evaluations"] += sum(len(b.get("txs", [])) or len(b.get("muts", [])) or len(b.get("seq", [])) or len(b.get("vs", [])) or 1 for b in behs)
     ctx.cov["distinct_nontrivial"] += len({json.dumps(b, sort_keys=True) for b in behs if nontrivial(b)})
     # T (verdict)
     res, _ = vlib.monitor(ctx, "TxApply_Mon", "TxApply_Mon.cfg", trace, behaviours=bpath, replay_meta={"driver": "txapply"}, timeout=1500)
@@ -210,7 +213,9 @@ def run(ctx):
                        "valid transfer class; distinct by JSON")
     ctx.assumptions += ["ECDSA/secp256k1 itself is trusted",
                         "the value a staking transaction stakes is the value in its payload (msg.Value is ignored by the staking converter)",
-                        "amounts: balances <= 5*10^6 LU, gas price 1..3, block gas pool 243000..486000",
+                        "amounts of the class stage: balances <= 5*10^6 LU, gas price 1..3, block gas pool 243000..486000; big-number stage: plain "
+                        "transfers with price in {3, 2^32, 10^15, 2^53, 2^63, 2^64-1, 2^64, 2^70}, limit in {21000, 2^20, 8*10^6 = pool}, value in "
+                        "{0, 2^64, 2^128, 2^255}, sender balance limit*price(+value) -1 / exact / +12345 (decimal strings, exact arithmetic)",
                         "protocol versions YouV1..YouV5, each on its own fixture chain with the same scaled parameter table (master signatures off), "
                         "EVM rules of the fixture chain (Istanbul)",
                         "errors other than the three up-front reasons (intrinsic gas after purchase, value not affordable) are judged "
